@@ -695,4 +695,245 @@ theorem cellContainsPoint_ok_of_triangles (hT : SphTrianglesCompute) (c : Cell) 
   simp only [Outcome.bind_ok]
   exact hpc pp
 
+/-- with the triangles: a decodable id has a boundary unless a longitude loop runs out of fuel -/
+theorem cellToBoundary_ok_of_triangles (hT : SphTrianglesCompute) (id : Nat) (closed : Bool) (segs : Option Nat)
+    (hd : ∃ c, deserialize id = .ok c) :
+    (∃ ring, cellToBoundary id closed segs = .ok ring) ∨ cellToBoundary id closed segs = .panic .fuel := by
+  obtain ⟨c, hc⟩ := hd
+  have hv := deserialize_ok_valid' id c hc
+  have hm : ∀ l : List V2, ∃ sph, mapOutcome' (fun v => dodecaInverse v c.origin) l = .ok sph := by
+    intro l
+    induction l with
+    | nil => exact ⟨[], rfl⟩
+    | cons a as ih =>
+      obtain ⟨b, hb⟩ := dodecaInverse_ok_of hT a c.origin hv.origin_lt
+      obtain ⟨bs, hbs⟩ := ih
+      refine ⟨b :: bs, ?_⟩
+      simp only [mapOutcome']
+      rewrite [hb]; simp only [Outcome.bind_ok]
+      rewrite [hbs]; simp only [Outcome.bind_ok]
+  rcases cellToBoundary_outcomes id closed segs with h | h | h | h
+  · exact Or.inl h
+  · rewrite [(cellToBoundary_badOrigin_iff id closed segs).1 h] at hc; cases hc
+  · exfalso
+    unfold cellToBoundary at h
+    by_cases h0 : id = Gen.WORLD_CELL
+    · rewrite [if_pos h0] at h; cases h
+    rewrite [if_neg h0, hc] at h
+    simp only [Outcome.bind_ok] at h
+    by_cases hr : c.res = -1
+    · rewrite [if_pos hr] at h; cases h
+    rewrite [if_neg hr] at h
+    obtain ⟨p, hp⟩ := getPentagon_valid c hv hr
+    rewrite [hp] at h
+    simp only [Outcome.bind_ok] at h
+    generalize polySplitEdges p _ = split at h
+    obtain ⟨sph, hs⟩ := hm split
+    rewrite [hs] at h
+    simp only [Outcome.bind_ok] at h
+    rcases (normalizeLongitudes_within (sph.map (fun x => toLonLat x.1 x.2))).elim with
+      ⟨nb, hn⟩ | ⟨e, _, he⟩ | ⟨k, hn, _⟩
+    · rewrite [hn] at h
+      simp only [Outcome.bind_ok] at h
+      cases nb with
+      | nil => cases h
+      | cons first rest => cases h
+    · exact he
+    · rewrite [hn] at h; simp only [Outcome.bind_panic] at h; cases h
+  · exact Or.inr h
+
+/-! ### 10. where the `fuel` panic of `cell_to_boundary` comes from -/
+
+theorem Outcome.bind_ok_eq_panic {α β : Type} {x : Outcome α} {g : α → β} {k : PanicKind}
+    (h : (x >>= fun v => Outcome.ok (g v)) = .panic k) : x = .panic k := by
+  cases x with
+  | ok v => simp only [Outcome.bind_ok] at h; cases h
+  | err e => simp only [Outcome.bind_err] at h; cases h
+  | panic k' => simp only [Outcome.bind_panic] at h; cases h; rfl
+
+theorem mapOutcomeF_panic {α β : Type} (f : α → Outcome β) (k : PanicKind) :
+    ∀ l : List α, normalizeLongitudes.mapOutcomeF f l = .panic k → ∃ a ∈ l, f a = .panic k := by
+  intro l
+  induction l with
+  | nil => intro h; simp only [normalizeLongitudes.mapOutcomeF] at h; cases h
+  | cons a as ih =>
+    intro h
+    simp only [normalizeLongitudes.mapOutcomeF] at h
+    cases ha : f a with
+    | ok b =>
+      rewrite [ha] at h; simp only [Outcome.bind_ok] at h
+      cases hr : normalizeLongitudes.mapOutcomeF f as with
+      | ok bs => rewrite [hr] at h; simp only [Outcome.bind_ok] at h; cases h
+      | err e => rewrite [hr] at h; simp only [Outcome.bind_err] at h; cases h
+      | panic k' =>
+        rewrite [hr] at h; simp only [Outcome.bind_panic] at h
+        cases h
+        obtain ⟨x, hx, hfx⟩ := ih hr
+        exact ⟨x, List.mem_cons_of_mem _ hx, hfx⟩
+    | err e => rewrite [ha] at h; simp only [Outcome.bind_err] at h; cases h
+    | panic k' =>
+      rewrite [ha] at h; simp only [Outcome.bind_panic] at h
+      cases h
+      exact ⟨a, List.mem_cons_self, ha⟩
+
+/-- a panic of `normalize_longitudes` is a panic of one of its longitude loops -/
+theorem normalizeLongitudes_panic (l : List (Float × Float)) (k : PanicKind) (h : normalizeLongitudes l = .panic k) :
+    ∃ lon center, unwrapLon 64 lon center = .panic k := by
+  cases l with
+  | nil => simp only [normalizeLongitudes] at h; cases h
+  | cons a as =>
+    simp only [normalizeLongitudes] at h
+    obtain ⟨⟨lon, lat⟩, _, hx⟩ := mapOutcomeF_panic _ k _ h
+    exact ⟨lon, _, Outcome.bind_ok_eq_panic hx⟩
+
+/-- **the only panic of `cell_to_boundary`**: one of the two `while` loops of `normalize_longitudes`
+fails to bring a longitude within 180° of the centre longitude in 64 steps of 360° -/
+theorem cellToBoundary_panic (id : Nat) (closed : Bool) (segs : Option Nat) (k : PanicKind)
+    (h : cellToBoundary id closed segs = .panic k) :
+    k = .fuel ∧ ∃ lon center, unwrapLon 64 lon center = .panic .fuel := by
+  have hk : k = .fuel := by
+    have hw := cellToBoundary_within id closed segs
+    rewrite [h] at hw
+    have hk' := (Outcome.Within.panic_iff (E := IdErr) (K := (· = PanicKind.fuel)) k).1 hw
+    exact hk'
+  subst hk
+  refine ⟨rfl, ?_⟩
+  rcases deserialize_cases id with ⟨c, hc⟩ | hc
+  · have hv := deserialize_ok_valid' id c hc
+    unfold cellToBoundary at h
+    by_cases h0 : id = Gen.WORLD_CELL
+    · rewrite [if_pos h0] at h; cases h
+    rewrite [if_neg h0, hc] at h
+    simp only [Outcome.bind_ok] at h
+    by_cases hr : c.res = -1
+    · rewrite [if_pos hr] at h; cases h
+    rewrite [if_neg hr] at h
+    obtain ⟨p, hp⟩ := getPentagon_valid c hv hr
+    rewrite [hp] at h
+    simp only [Outcome.bind_ok] at h
+    generalize polySplitEdges p _ = split at h
+    rcases (mapOutcome'_within (E := (· = .crsVertex)) (K := fun _ => False) _
+        (fun v => dodecaInverse_okOrCrs v c.origin hv.origin_lt) split).elim with ⟨sph, hs⟩ | ⟨e, hs, _⟩ | ⟨k, _, hk⟩
+    · rewrite [hs] at h
+      simp only [Outcome.bind_ok] at h
+      cases hn : normalizeLongitudes (sph.map (fun x => toLonLat x.1 x.2)) with
+      | ok nb =>
+        rewrite [hn] at h
+        simp only [Outcome.bind_ok] at h
+        cases nb with
+        | nil => cases h
+        | cons first rest => cases h
+      | err e => rewrite [hn] at h; simp only [Outcome.bind_err] at h; cases h
+      | panic k' =>
+        rewrite [hn] at h; simp only [Outcome.bind_panic] at h
+        cases h
+        exact normalizeLongitudes_panic _ _ hn
+    · rewrite [hs] at h; simp only [Outcome.bind_err] at h; cases h
+    · exact hk.elim
+  · rewrite [cellToBoundary_undecodable id closed segs hc] at h; cases h
+
+/-! ### 11. explicit projection statements and the summary -/
+
+/-- **4a. `DodecahedronProjection::forward`**, every origin id and all floats -/
+theorem dodecaForward_cases (theta phi : Float) (o : Nat) :
+    (∃ v, dodecaForward theta phi o = .ok v) ∨ (dodecaForward theta phi o = .err .crsVertex ∧ o < 12) ∨
+    (dodecaForward theta phi o = .err .invalidOrigin ∧ 12 ≤ o) := by
+  rcases (dodecaForward_outcomes theta phi o).elim with h | ⟨e, h, ⟨he, ho⟩ | ⟨he, ho⟩⟩ | ⟨k, _, hk⟩
+  · exact Or.inl h
+  · subst he; exact Or.inr (Or.inl ⟨h, ho⟩)
+  · subst he; exact Or.inr (Or.inr ⟨h, ho⟩)
+  · exact hk.elim
+
+/-- **4b. `DodecahedronProjection::inverse`**, every origin id and every face point -/
+theorem dodecaInverse_cases (f : V2) (o : Nat) :
+    (∃ v, dodecaInverse f o = .ok v) ∨ (dodecaInverse f o = .err .crsVertex ∧ o < 12) ∨
+    (dodecaInverse f o = .err .invalidOrigin ∧ 12 ≤ o) := by
+  rcases (dodecaInverse_outcomes f o).elim with h | ⟨e, h, ⟨he, ho⟩ | ⟨he, ho⟩⟩ | ⟨k, _, hk⟩
+  · exact Or.inl h
+  · subst he; exact Or.inr (Or.inl ⟨h, ho⟩)
+  · subst he; exact Or.inr (Or.inr ⟨h, ho⟩)
+  · exact hk.elim
+
+/-- the id-based centre call and both projection directions never panic, for any input at all -/
+theorem float_calls_never_panic :
+    (∀ id : Nat, (cellToLonLat id).isPanic = false) ∧
+    (∀ (theta phi : Float) (o : Nat), (dodecaForward theta phi o).isPanic = false) ∧
+    (∀ (f : V2) (o : Nat), (dodecaInverse f o).isPanic = false) :=
+  ⟨fun id => (cellToLonLat_within id).not_panic, fun t p o => (dodecaForward_outcomes t p o).not_panic,
+   fun f o => (dodecaInverse_outcomes f o).not_panic⟩
+
+/-- **`float_api_total`**: outcome-level totality of the float-valued public calls, for every 64-bit (indeed
+every natural) id, every `Float` (NaN and infinities included), every option value, every origin id and
+every integer resolution.  Float-dependent events that remain: the error `crsVertex`, the panic `notCCW`
+(containment path only) and the loop fuel of `normalize_longitudes` (boundary only). -/
+theorem float_api_total :
+    -- 1. cell_to_lonlat
+    (∀ id : Nat, (∃ p, cellToLonLat id = .ok p) ∨ cellToLonLat id = .err .badOrigin ∨
+        cellToLonLat id = .err .crsVertex) ∧
+    -- 2. cell_to_boundary
+    (∀ (id : Nat) (closed : Bool) (segs : Option Nat),
+        (∃ ring, cellToBoundary id closed segs = .ok ring) ∨ cellToBoundary id closed segs = .err .badOrigin ∨
+        cellToBoundary id closed segs = .err .crsVertex ∨ cellToBoundary id closed segs = .panic .fuel) ∧
+    -- 3. a5cell_contains_point on the record of a decodable non-world id
+    (∀ (id : Nat) (c : Cell) (lon lat : Float), deserialize id = .ok c → getResolution id ≠ -1 →
+        (∃ d, cellContainsPoint c lon lat = .ok d) ∨ cellContainsPoint c lon lat = .err .crsVertex ∨
+        cellContainsPoint c lon lat = .panic .notCCW) ∧
+    -- 4. the projection, both directions
+    (∀ (theta phi : Float) (o : Nat),
+        (∃ v, dodecaForward theta phi o = .ok v) ∨ (dodecaForward theta phi o = .err .crsVertex ∧ o < 12) ∨
+        (dodecaForward theta phi o = .err .invalidOrigin ∧ 12 ≤ o)) ∧
+    (∀ (f : V2) (o : Nat),
+        (∃ v, dodecaInverse f o = .ok v) ∨ (dodecaInverse f o = .err .crsVertex ∧ o < 12) ∨
+        (dodecaInverse f o = .err .invalidOrigin ∧ 12 ≤ o)) ∧
+    -- get_pentagon on the record of a decodable non-world id
+    (∀ (id : Nat) (c : Cell), deserialize id = .ok c → getResolution id ≠ -1 → ∃ p, getPentagon c = .ok p) ∧
+    -- cell_area: the saturating count always fits a u64
+    (∀ r : Int, getNumCells r < 2 ^ 64) :=
+  ⟨cellToLonLat_outcomes, cellToBoundary_outcomes,
+   fun id c lon lat hd hr => cellContainsPoint_id_outcomes id c hd hr lon lat,
+   dodecaForward_cases, dodecaInverse_cases,
+   fun id c hd hr => getPentagon_valid c (deserialize_ok_valid' id c hd) (by rewrite [deserialize_res id c hd]; exact hr),
+   getNumCells_lt⟩
+
+/-- the record-level calls are NOT total on hand-made records (public struct, public fields) -/
+theorem record_api_findings :
+    (∀ c : Cell, 12 ≤ c.origin → getPentagon c = .panic .indexOOB) ∧
+    (∀ c : Cell, c.origin < 12 → c.res < 0 → getPentagon c = .panic .fuel) ∧
+    (∀ (c : Cell) (lon lat : Float), c.origin < 12 → c.res < 0 →
+        cellContainsPoint c lon lat = .err .crsVertex ∨ cellContainsPoint c lon lat = .panic .fuel) ∧
+    (∀ (c : Cell) (lon lat : Float), 12 ≤ c.origin → cellContainsPoint c lon lat = .err .invalidOrigin) :=
+  ⟨getPentagon_bad_origin, getPentagon_negative_res,
+   fun c lon lat ho hr => cellContainsPoint_negative_res c ho hr lon lat,
+   fun c lon lat ho => cellContainsPoint_bad_origin c ho lon lat⟩
+
+/-! ### non-vacuity -/
+
+-- a resolution-4 cell, a stray-bit alias of it, a non-cell, the world cell
+example : deserialize 0x92d8000000000000 = .ok ⟨7, 3, 0x2d, 4⟩ := by decide
+example : (⟨7, 3, 0x2d, 4⟩ : Cell).Valid := by decide
+example : ∃ p, getPentagon ⟨7, 3, 0x2d, 4⟩ = .ok p := getPentagon_valid _ (by decide) (by decide)
+example : OkOrCrs (cellToLonLat 0x92d8000000000001) :=
+  cellToLonLat_decoded _ ⟨7, 3, 0x2d, 4⟩ (by decide)
+example : (cellToBoundary 0x92d8000000000000 true (some 0)).Within (· = .crsVertex) (· = .fuel) :=
+  cellToBoundary_decoded _ _ _ ⟨7, 3, 0x2d, 4⟩ (by decide)
+example : (cellToBoundary 0x92d8000000000000 false none).Within (· = .crsVertex) (· = .fuel) :=
+  cellToBoundary_decoded _ _ _ ⟨7, 3, 0x2d, 4⟩ (by decide)
+example : cellToLonLat 0xf200000000000000 = .err .badOrigin := cellToLonLat_undecodable _ (by decide)
+example : cellToBoundary 0xf200000000000000 true (some 7) = .err .badOrigin :=
+  cellToBoundary_undecodable _ _ _ (by decide)
+example (lon lat : Float) : Benign (cellContainsPoint ⟨7, 3, 0x2d, 4⟩ lon lat) :=
+  cellContainsPoint_valid _ (by decide) (by decide) lon lat
+-- the world record is what `deserialize` returns for id 0 (and for id 1, 2, 3, …: no marker bit)
+example : deserialize 1 = .ok ⟨0, 0, 0, -1⟩ := by decide
+example : getPentagon ⟨0, 0, 0, -1⟩ = .panic .fuel := getPentagon_negative_res _ (by decide) (by decide)
+example : getPentagon ⟨12, 0, 0, 0⟩ = .panic .indexOOB := getPentagon_bad_origin _ (by decide)
+-- `s_to_anchor` with a position that does not fit its depth, reversed orientation 1: subtraction overflow
+example : (sToAnchor 16 2 1).isPanic = true := (sToAnchor_isPanic_iff 16 2 1).2 (Or.inl ⟨by decide, Or.inr (by decide)⟩)
+example : dodecaInverse ⟨0.0, 0.0⟩ 12 = .err .invalidOrigin := dodecaInverse_bad_origin _ _ (by decide)
+example : (cellArea (-7) = fc Gen.AUTHALIC_AREA) := by
+  rcases cellArea_cases (-7) with ⟨_, h⟩ | ⟨h, _⟩ | ⟨h, _⟩
+  · exact h
+  · omega
+  · omega
+
 end A5
